@@ -1,5 +1,5 @@
 """OUT-*: the character writer (src/output.cpp add_char/add_text/output_to_column + unicode.cpp writers)."""
-TUS = ['unicode.cpp', 'unc_text.cpp', '$BUILD/src/options.cpp']
+TUS = ['unicode.cpp', 'unc_text.cpp', '$BUILD/src/options.cpp', '$HARNESS/chartable.cpp']
 
 
 def char_instances(tier):
@@ -39,10 +39,21 @@ OBLIGATIONS = [
                                               'the text ends in a non-break character (a pending CR is flushed by the next character)']),
     dict(COMMON, id='OUT-COL', entry='vp_out_col', instances=col_instances),
 ]
+OBLIGATIONS.append(dict(id='OUT-LOOP', harness='outloop.cpp', entry='vp_out_loop', havoc_options=True, redirect={'_Z10write_chari': 'vp_sink_char'},
+                        extra_tus=TUS + ['chunk.cpp', 'unc_ctype.cpp'], noop=['_Z11encode_utf8iRSt9vp_vectorIhvE', 'snprintf', '_Z18DecodeTrackingDataP5Chunk'],
+                        cut_re=r'reindent_line|output_comment|add_comment_text|cmt_|regex|basic_stringIw|_ZNSt6locale|St5ctypeI|use_facet|kw_fcn|do_kw_subst|generate_if_conditional|_Rb_tree|St3mapI',
+                        instances=lambda tier: [dict(name='ts%d-col%d-%s' % (ts, cm, ak[3:].lower()), bound='chunk list [NEWLINE(0..3), A(%s), B(word), NEWLINE(1)]: columns of A (1..%d) and B, preprocessor/aligned/after-tab flags, tab size %d, every option the loop reads' % (ak, cm, ts),
+                                                     unwind=cm + 8, unwindset={'add_char|output_to_column': cm + 6, 'write_string': 4, 'UncText|strlen': 5}, timeout=1500,
+                                                     defs=dict(TS=ts, COLMAX=cm, AKIND=ak, VP_CAP_U8=2 * cm + 16, VP_CAP_INT=4))
+                                                for (ts, cm, ak) in ([(4, 5, 'CT_WORD'), (2, 4, 'CT_BRACE_CLOSE')] if tier == 'quick' else [(4, 9, 'CT_WORD'), (3, 8, 'CT_BRACE_CLOSE'), (8, 10, 'CT_WORD'), (2, 6, 'CT_CASE_COLON')])],
+                        assumptions=['write_char() replaced by a byte recorder in the solver build', 'columns of A and B do not overlap (reindent_line cut)', 'A and B are not comments / newlines / continuations / ignored text / #define',
+                                     'html tracking and line numbering off', 'terminator LF', 'container models, logging helpers empty']))
+import os as _os
+_EXP = bool(_os.environ.get('VP_EXPERIMENTAL'))
 PROPERTIES = {
     'C08': dict(obligations=['OUT-CHAR'],
                 not_decided='the comment writers\' own handling of CR/LF inside comment text (output_comment_*).'),
-    'C17': dict(obligations=['OUT-CHAR', 'OUT-COL'],
+    'C17': dict(obligations=['OUT-CHAR', 'OUT-COL'] + (['OUT-LOOP'] if _EXP else []),
                 not_decided='trimming inside comments (cmt_trim_whitespace).'),
     'C05': dict(obligations=['OUT-COL'],
                 not_decided='the byte-level fixed point of the whole pipeline (all passes, all programs) is out of reach of this technique.'),
